@@ -83,6 +83,7 @@ def probemap_sim(ctx, cfg, nk, use_zero, num, depth, shapes):
 
 def run(ctx, replay):
     thorough = ctx.tier == "thorough"
+    ctx.overlay_tags.add("x16ls")     # harness/c16 is one package: the LimStore accessors are needed from the first build
     ctx.cov["rule"] = ("behaviours = every labelled edge of the TLC state graph of ProbeMap (covering paths) "
                        "+ simulated behaviours, each replayed on the real UInt64Map under several real-key shapes; "
                        "SegCache schedules forced through the gate hook; distinct = distinct labelled edges / "
@@ -100,6 +101,7 @@ def run(ctx, replay):
         ctx.tlc("ProbeMap", "MC_Wrap5.tla", "MC_Wrap5.cfg", timeout=3000, heap="24g")
     segcache(ctx, thorough)
     linmap(ctx, thorough)
+    limstore(ctx, thorough)
 
 
 SEG_MODELS = {
@@ -221,3 +223,63 @@ def linmap(ctx, thorough, prefix=""):
         key = "linmap/" + str(stuck.get("op"))
     ctx.violation(key, "%s[LinMap %s cap=%s] %s" % (prefix, head.get("kind"), head.get("cap"), what),
                   {"driver": "linmap", "round": rnd, "kind": head.get("kind"), "history": rlines, "seed": ctx.seed})
+
+
+LS_KEYS = [0, 0x1111111111111111, 0xFFFFFFFFFFFFFFFF, 0x8000000000000000]
+
+
+def limstore(ctx, thorough, prefix=""):
+    """LimStore.tla <-> middleware/ratelimit.LimiterStore: exhaustive model (as-built passes, the
+    evict-after-insert mutant fails in the sampled regime), TLC-chosen call sequences on the real store in both
+    regimes, the recorded observations validated against Trace_LimStore.tla, and a volume stage."""
+    from concurrent.futures import ThreadPoolExecutor
+    ctx.spec_dir("LimStore")
+
+    def mc(cfg, must):
+        return ctx.tlc("LimStore", "MC_LimStore.tla", cfg, workers=4, timeout=600, heap="3g", must_pass=must,
+                       count=must, tag=None if must else "mutant-must-fail")
+    with ThreadPoolExecutor(3) as ex:
+        fs = [ex.submit(mc, "MC_LimStore_exact.cfg", True), ex.submit(mc, "MC_LimStore_sampled.cfg", True),
+              ex.submit(mc, "MC_LimStore_sampled_mutant.cfg", False)]
+        rs = [f.result() for f in fs]
+    if rs[2].violated != "JustWrittenStays":
+        raise vf.MachineryError("MC_LimStore_sampled_mutant: expected JustWrittenStays to fail, got %r" % rs[2].violated)
+    for regime, fill in (("exact", 0), ("sampled", 1000)):
+        behs = ctx.tlc_behaviours("LimStore", "MC_LimStore.tla", "Sim_LimStore_%s.cfg" % regime,
+                                  num=150 if not thorough else 1500, depth=10, timeout=600)
+        seqs, seen = [], set()
+        for b in behs:
+            steps = [s["last"] for _, s in b[1:]]
+            k = repr(steps)
+            if k not in seen and steps:
+                seen.add(k)
+                seqs.append(steps)
+        trace = os.path.join(ctx.scratch, "limstore_%s.ndjson" % regime)
+        inp = {"regime": regime, "fill": fill, "room": 2, "keys": LS_KEYS, "behaviours": seqs,
+               "volume": 0 if regime == "exact" else (40000 if not thorough else 400000), "traceOut": trace}
+        res = ctx.go_driver("./c16", "TestLimStore", inp, name="limstore_" + regime, timeout=900)
+        ctx.take_driver_result(res, prefix + "[LimStore %s] " % regime)
+        c = res.get("counters", {})
+        if not res.get("violations"):
+            if c.get("gets", 0) == 0 or (regime == "sampled" and c.get("volume_inserts", 0) < inp["volume"] * 0.9):
+                raise vf.MachineryError("LimStore %s replay was vacuous: %s" % (regime, c))
+            if regime == "exact" and c.get("evictions_key", 0) == 0:
+                raise vf.MachineryError("LimStore exact replay saw no eviction: %s" % c)
+        info = {"behaviours": len(seqs), "counters": c, "drift": res["drift"], "drift_notes": res.get("drift_notes", [])[:5]}
+        ctx.cov["replay"]["limstore_" + regime] = info
+        if res.get("violations"):
+            continue
+        nlines = sum(1 for _ in open(trace))
+        ok, r = ctx.tlc_trace("LimStore", "Trace_LimStore.tla", "Trace_LimStore_%s.cfg" % regime, trace, timeout=900)
+        info["trace_lines"] = nlines
+        info["trace_matched"] = max(0, r.depth - 1)
+        if r.violated:
+            ctx.violation("limstore/%s/trace/%s" % (regime, r.violated),
+                          prefix + "[LimStore %s] %s is false on a history recorded from the real LimiterStore (line %d of the trace)" % (regime, r.violated, r.depth),
+                          {"driver": "limstore", "regime": regime, "input": inp})
+        elif not ok:
+            ctx.cov["drift"] += 1
+            info["drift_notes"].append("Trace_LimStore_%s matched %d of %d lines" % (regime, r.depth - 1, nlines))
+            ctx.log("DRIFT LimStore %s: trace matched %d of %d lines" % (regime, r.depth - 1, nlines))
+        else:
+            ctx.cov["traces_validated_against_impl"] += len(seqs)
